@@ -501,6 +501,11 @@ func VerifC19_Interleave() {
 			c.resp, c.body, c.sentTag, c.sent = verifAnswer(c.req, r)
 			rt.Assert(w.isStatusSupported(c.req, c.resp), "interleave/answer-refused")
 		case 2:
+			// the cached entry may have expired (TTL) since the request was sent
+			if c.resp.StatusCode == 304 && rt.Bool("entry-expired-before-the-answer-arrived") {
+				rt.Cover("entry-expired-meanwhile")
+				w.etagCache.VerifExpire(verifKey("p"))
+			}
 			pre, preOK := w.etagCache.Get(verifKey("p"))
 			got, err := w.adjustResponse(c.req, c.wreq, c.body, c.resp)
 			if c.resp.StatusCode == 304 {
